@@ -103,6 +103,12 @@ func init() {
 					cases = append(cases, Case{"doc": d, "tracks": tr, "program": -1, "instrument": "\x00default", "ofile": (i+tr)%3 == 0, "flags": Flags{}})
 				}
 			}
+			if T := refDivision(c); T > 0 { // to the tick: 2^28 - 1 is the last delta four bytes hold
+				for _, n := range []int{1<<28 - 2, 1<<28 - 1, 1 << 28, 1<<28 + 1} {
+					cases = append(cases, Case{"doc": Doc{{Rest: true, Vals: []Frac{{n, T}}}, long(1)}, "tracks": 1, "program": -1, "instrument": "\x00default", "ofile": false, "flags": Flags{}},
+						Case{"doc": Doc{{Deg: "1", Sym: "", Vals: []Frac{{n, T}}}, long(1)}, "tracks": 2, "program": -1, "instrument": "\x00default", "ofile": n%2 == 0, "flags": Flags{}})
+				}
+			}
 			// every program number once, on a tiny document
 			if !c.quick() {
 				for p := 0; p < 256; p++ {
